@@ -97,6 +97,19 @@ class Gen:
             self._forget_ds(gone)
             for r in rs:
                 del self.colls[r]
+        elif k == "Xfer":
+            _, d, r, key = op
+            if self.colls.get(r, "RUN") != "RUN":
+                return
+            if d in self.ds:
+                if self.ds[d] != (r, key):
+                    return
+            elif (r, key) in self.ds.values():
+                return
+            self.colls[r] = "RUN"
+            self.ds[d] = (r, key)
+            if d not in self.pending:
+                self.stored.add(d)
         elif k in ("Trash", "Trash1"):
             mv = (set(op[1]) if k == "Trash" else {op[1]}) & self.stored
             self.stored -= mv
@@ -163,6 +176,19 @@ def gen_history(rng: random.Random, length: int):
             if rng.random() < 0.07:
                 ch.append(rng.randrange(NCOLL))
             op = ["SetChain", c, ch]
+        elif x < 0.095:
+            # transfer_from a second repository: mostly an id the registry still has (restores an unstored dataset, skipped for a
+            # stored one) or a free id; sometimes into a run that does not exist yet (transfer_from registers it)
+            if g.ds and rng.random() < 0.5:
+                d = rng.choice(sorted(g.ds))
+                r, key = g.ds[d]
+                if rng.random() < 0.12:
+                    key = rng.randrange(NKEY)
+            else:
+                free = [i for i in range(NDS) if i not in g.ds]
+                d = rng.choice(free) if free and rng.random() < 0.9 else rng.randrange(NDS)
+                r, key = of_kind("RUN", bad=0.2), rng.randrange(NKEY)
+            op = ["Xfer", d, r, key]
         elif x < 0.29 or (len(g.ds) < 2 and x < 0.55):
             y = rng.random()
             if y < 0.2 and g.ds:                          # re-put of an existing id (restores an unstored one / conflicts)
@@ -492,7 +518,7 @@ def check_history(ctx: Ctx, hist, steps, origin):
                 targets, mode = set(op[1]), "trash"
             elif k == "Trash1" and ok:
                 targets, mode = {op[1]}, "trash"
-            if ok and k not in ("Prune", "RemoveRuns", "RegRemove", "RegColl") and sorted(pcolls.items()) != sorted(colls.items()):
+            if ok and k not in ("Prune", "RemoveRuns", "RegRemove", "RegColl", "Xfer") and sorted(pcolls.items()) != sorted(colls.items()):
                 fail("collections-changed", i, f"{k} changed the set of collections")
             if targets is not None:
                 whole = mode in ("purge", "removeRuns", "regremove")       # the dataset itself is to be forgotten
@@ -562,6 +588,12 @@ def check_history(ctx: Ctx, hist, steps, origin):
                 d = op[1]
                 if obs["exists"][d][:3] != [1, 1, 1]:
                     fail("put-not-visible", i, f"after a successful put dataset {d} is reported {obs['exists'][d]}")
+            if ok and k == "Xfer":
+                d = op[1]
+                if sorted(c for c in colls if c != op[2]) != sorted(c for c in pcolls if c != op[2]) or colls.get(op[2]) != 1:
+                    fail("collections-changed", i, "transfer_from changed collections other than registering its run")
+                if not any(r[0] == d for r in prev["raw_recs"]) and (obs["exists"][d][:3] != [1, 1, 1] or obs["many"][d][:3] != [1, 1, 1]):
+                    fail("transfer-not-visible", i, f"after a successful transfer_from dataset {d} is reported {obs['exists'][d]} / {obs['many'][d]}")
             if k == "Ingest" and ok and any(d in prev["raw_loc"] or any(r[0] == d for r in prev["raw_recs"]) for d in op[1:3]):
                 fail("reingest-of-held-accepted", i, "Butler.ingest accepted a dataset the datastore already holds")
             if ok and k == "Ingest":
@@ -637,6 +669,8 @@ def cop(op):
         return f"RegRemove {nl(op[1])}"
     if k == "Trash1":
         return f"Trash1 {op[1]}"
+    if k == "Xfer":
+        return f"Xfer {op[1]} {op[2]} {op[3]}"
     if k == "Ingest":
         return f"Ingest {op[1]} {op[2]} {op[3]} {op[4]}"
     raise ValueError(op)
